@@ -433,6 +433,10 @@ func genC11(tier string) []*Scenario {
 				out = append(out, &Scenario{Name: name, Prop: "C11", Seq: occSpecRel(name, c, 3, nfill, above, lvl, RelZeroSD), ExpectOutcomes: 2})
 			}
 		}
+		for _, nfill := range []int{0, c.slots()} {
+			name := fmt.Sprintf("C11/occupancy/%s/max-tag-keys/fillers-in-chain=%d", c, nfill)
+			out = append(out, &Scenario{Name: name, Prop: "C11", Seq: occSpecRel(name, c, 3, nfill, nfill > 0, lvl, RelMaxSD), ExpectOutcomes: 2})
+		}
 		name := fmt.Sprintf("C11/occupancy/%s/zero-tag-keys-alone-in-their-buckets/aboveGrowThreshold", c)
 		out = append(out, &Scenario{Name: name, Prop: "C11", Seq: occSpecRel(name, c, 3, 0, true, lvl, RelZeroDD), ExpectOutcomes: 2})
 	}
